@@ -358,10 +358,14 @@ def judge_refine_case(case, obs):
 def judge_options(options, obs, what):
     """Caller-supplied option dicts: unchanged after the call; reusing the dict object gives the same result."""
     fails = []
-    for key in ("mutation_serial", "mutation_parallel"):
-        m = obs.get(key)
-        if m is not None and m[0] != "tolerance-defaults":
-            fails.append(f"{what} ({key.split('_')[1]}) modified the caller's option dicts: {m[1]}")
+    # what the caller can observe after the call must not depend on the number of processes: a dict that the
+    # serial branch writes into and the pool (pickled copies) does not makes the NEXT analysis that reuses the
+    # dict differ by schedule (defect F31, repaired: corpus/defects.py F31 shows the bit-level difference)
+    if "mutation_serial" in obs and "mutation_parallel" in obs and obs["mutation_serial"] != obs["mutation_parallel"]:
+        ms, mp = obs["mutation_serial"], obs["mutation_parallel"]
+        fails.append(f"{what}: the caller's option dicts after the call depend on the number of processes "
+                     f"(serial: {ms[1] if ms else 'unchanged'}; with workers: {mp[1] if mp else 'unchanged'}), "
+                     "so a later analysis reusing them depends on how this one was scheduled")
     if "serial_reused_options" in obs:
         m = judge_lists(obs["serial"], obs["serial_reused_options"], "first analysis",
                         "repeated analysis with the same options object") \
